@@ -45,7 +45,7 @@ def oracle(ck, scenarios, recs, what='CSS designates'):
 
 def run(tier, seed):
     ck = Check(PID, tier, seed)
-    ck.proof = lib.proof_step('props/C01.v', matchcheck.MATCH_CONE)
+    ck.proof = lib.proof_step('props/C01.v', matchcheck.MATCH_CONE + ['FuelFacts.v'])
     ck.broken += ck.proof['broken']
     if not ck.proof['driver_ok']:
         ck.notes['driver'] = 'unavailable: model-side runs skipped, searching with the implementation-side oracles only'
